@@ -516,11 +516,19 @@ func (g *gen) genBlock(bi int) {
 	}
 	// ---- evidence
 	var mevs []EvidenceIn
+	nEv := 0
 	if h >= 2 && r.Chance(g.cfg.evRate) {
+		nEv = 1
+		if r.Chance(0.3) {
+			nEv = r.Range(2, 4) // several offenders in one block (never the same one twice: that halts by design)
+		}
+	}
+	evUsed := map[int]bool{}
+	for evi := 0; evi < nEv; evi++ {
 		ev := Evidence{HeightBack: int64(r.Range(1, 3)), Power: -1}
 		cands := g.valsWith(func(v *MVal) bool {
 			s := g.m.Sign[v.Acct]
-			return v.Status != StUnstaked && (s == nil || !s.Tombstoned)
+			return v.Status != StUnstaked && (s == nil || !s.Tombstoned) && !evUsed[v.Acct]
 		})
 		if r.Chance(g.cfg.badEvRate) || len(cands) == 0 {
 			ev.Acct = g.pickAcct()
@@ -541,6 +549,10 @@ func (g *gen) genBlock(bi int) {
 		if r.Chance(0.3) {
 			ev.Power = []int64{0, 1, 1000, 1 << 40}[r.Intn(4)]
 		}
+		if evUsed[ev.Acct] {
+			continue
+		}
+		evUsed[ev.Acct] = true
 		// keep only evidence the documented code path does not halt on (unless badEvRate asks for it)
 		ok := g.m.EverVal[ev.Acct]
 		if v, has := g.m.Vals[ev.Acct]; ok && ev.AgeNs <= g.m.P.MaxEvidenceAge {
